@@ -119,7 +119,8 @@ def run(ctx):
                   "happened; distinct by (optimizer, seed, step)")
     up = ctx.unit("S:SMBO proposal rule", "S",
                   "every model-based proposal: with the acquisition vector captured from the fitted model over the current candidate "
-                  "set, the proposed position must be a candidate whose value no other candidate exceeds (model: proposal_ok); "
+                  "set, the proposed position must be a candidate whose value no other candidate exceeds (model: proposal_ok) and every "
+                  "candidate must lie in the box and satisfy the constraints (emit_b; 40% of the runs are constrained); "
                   "non-trivial = >= 2 distinct acquisition values; distinct by (optimizer, seed, step)")
     usp = ctx.unit("S:TPE best/worst split", "S",
                    "every call of TreeStructuredParzenEstimators._get_samples in the runs (objectives with plateaus, so that equal scores "
@@ -135,7 +136,7 @@ def run(ctx):
                         "distinct by (optimizer, seed)")
     rng = ctx.sub_rng("c17")
     tl, tc, pl, pc, wl, wc, spl, spc = [], [], [], [], [], [], [], []
-    n_runs = 12 if ctx.quick else 80
+    n_runs = 16 if ctx.quick else 84
     for it in range(n_runs):
         name = SMBO4[it % 4]
         space, meta = gen.gen_space(rng, ndims=rng.choice([1, 2]), sizes=(3, 5, 8), max_points=40)
@@ -147,7 +148,17 @@ def run(ctx):
         def fobj(para, vt=vt, names=names):
             return vt[tuple(float(para[n]) for n in names)]
         cfg = {}
-        if rng.random() < 0.5:
+        if it >= n_runs - 4:
+            # one run per optimizer aimed at the no-repeat clause: replacement=False, a small space, half of the points non-finite
+            space, meta = gen.gen_space(rng, ndims=1, sizes=(8,), max_points=40) if rng.random() < 0.5 else gen.gen_space(rng, ndims=2, sizes=(3, 5), max_points=15)
+            names = list(space.keys())
+            table, _ = gen.gen_table(rng, space, kind="unimodal", nonfinite=0.5)
+            vt = {tuple(float(space[n][i]) for n, i in zip(names, p)): r[0] for p, r in table.items()}
+
+            def fobj(para, vt=vt, names=names):
+                return vt[tuple(float(para[n]) for n in names)]
+            cfg["replacement"] = False
+        elif rng.random() < 0.5:
             cfg["replacement"] = False
         if rng.random() < 0.3:
             cfg["sampling"] = {"random": rng.choice([5, 10])}
@@ -159,6 +170,13 @@ def run(ctx):
             cfg["tree_para"] = {"n_estimators": 5}
             if rng.random() < 0.5:
                 cfg["tree_regressor"] = rng.choice(["random_forest", "extra_tree", "gradient_boost"])
+        feas = None
+        if rng.random() < 0.4:
+            feas, _ = gen.gen_constraint(rng, space, kind=rng.choice(["halfspace", "mask", "parity"]))
+            fvals = {tuple(float(space[n][i]) for n, i in zip(names, p_)) for p_ in feas}
+            cfg["constraints"] = [lambda para, fvals=fvals, names=names: tuple(float(para[n]) for n in names) in fvals]
+        from props.core_units import space_lits
+        sp_lit, cons_lit, _vs = space_lits(space, feas)
         init = {"random": rng.choice([2, 3, 4])}
         seed = rng.randrange(10 ** 6)
         n_iter = init["random"] + (8 if ctx.quick else 12)
@@ -210,8 +228,9 @@ def run(ctx):
                                       "%s: the proposal %r has acquisition value %r but the maximum over the candidates is %r" % (name, st["pos"], [acq[i] for i in idxs], best))
                         break
                     i0 = next(i for i in idxs if acq[i] == best)
-                    pl.append("(proposal_ok %s %s %s %s)" % (clist(comb, clist), clist(acq, xr), cnat(i0), clist(st["pos"])))
-                    pc.append(dict(optimizer=name, cfg=jsonable(cfg), seed=seed, step=st["k"], chosen=st["pos"], n_candidates=len(comb)))
+                    pl.append("(proposal_ok %s %s %s %s && forallb (emit_b %s %s) %s)" % (clist(comb, clist), clist(acq, xr), cnat(i0), clist(st["pos"]),
+                                                                                           sp_lit, cons_lit, clist(comb, clist)))
+                    pc.append(dict(optimizer=name, cfg=jsonable({k_: v_ for k_, v_ in cfg.items() if k_ != "constraints"}), constrained=feas is not None, seed=seed, step=st["k"], chosen=st["pos"], n_candidates=len(comb)))
                     up.count(key, nontrivial=len(set(acq)) >= 2)
                     up.bump(name)
                 if cfg.get("replacement") is False:
@@ -291,7 +310,7 @@ def run(ctx):
         wc.append(dict(space=jsonable(space), frame=jsonable(rows), X=out[1], Y=out[2]))
         uw.count((repr(jsonable(space)), repr(rows)), nontrivial=len(out[1]) < len(rows))
     ut.samples, up.samples, uw.samples = tc[:2], pc[:2], wc[:2]
-    hdr = "Require Import Converter CoreOpt Smbo C17_proofs.\nDefinition pe := list_eqb Z.eqb."
+    hdr = "Require Import Converter CoreOpt Smbo Pop C17_proofs.\nDefinition pe := list_eqb Z.eqb."
     usp.samples = spc[:2]
     for u, lits, cases, note in ((ut, tl, tc, "X/Y/candidate tracking differs from the model"), (up, pl, pc, "the proposal is not an acquisition maximiser of the model's rule"),
                                  (usp, spl, spc, "TPE's best / worst split is not the split of one argsort of Y_sample"),
